@@ -1,0 +1,14 @@
+use super::Buffer;
+use crate::verif::BufferState;
+
+impl Buffer {
+    pub(crate) fn verif_state(&self) -> BufferState {
+        BufferState {
+            cols: self.cols,
+            rows: self.rows,
+            len: self.lines.len(),
+            trim_needed: self.trim_needed,
+            scrollback_limit: self.scrollback_limit.as_ref().map(|l| (l.soft, l.hard)),
+        }
+    }
+}
